@@ -637,6 +637,9 @@ void ExpressionBuilder::expr_dot(const char* id)
                 type = type.subst(s, e);
             expr = expression_t::create_dot(expr, *i, position, type);
         }
+    } else if (type.is(PROCESS_VAR) && expr.get_symbol() == symbol_t()) {
+        // a process-variable typed expression that is not the variable itself, e.g. (sum (p : T) p).x
+        handle_error(IsNotAStructError(expr.str(true)));
     } else if (type.is(PROCESS_VAR)) {
         symbol_t uid;
         // temporarily set the frame to that of its associated template
